@@ -3,7 +3,7 @@
 Require Extraction.
 Require Import ExtrOcamlBasic ExtrOcamlZBigInt.
 From Coq Require Import ZArith QArith String.
-From GMGP Require Import Scalar GridDefs TridiagDefs SparseLUDefs ObjectsDefs InterpDefs StencilDefs SmootherDefs CycleDefs GridGenDefs ParDefs.
+From GMGP Require Import Scalar GridDefs TridiagDefs SparseLUDefs ObjectsDefs InterpDefs StencilDefs SmootherDefs CycleDefs GridGenDefs ParDefs KernelDefs StopDefs.
 From GMGPGen Require Import GridIndexGen SpecialMembersGen ParRegionsGen.
 
 Extraction Language OCaml.
@@ -55,6 +55,11 @@ Definition q_resid := @resid Qsc.
 Definition q_smoother_blocks := smoother_blocks.
 Definition q_ext_smoother_blocks := ext_smoother_blocks.
 
+Definition q_stop_decision := @stop_decision Qsc.
+Definition q_k_dot := @k_dot Qsc.
+Definition q_k_l1 := @k_l1 Qsc.
+Definition q_k_l2sq := @k_l2sq Qsc.
+Definition q_k_inf := @k_inf Qsc.
 Definition q_gen_radii_uniform := @gen_radii_uniform Qsc.
 Definition q_gen_angles := @gen_angles Qsc.
 Definition q_radii_valid_b := @radii_valid_b Qsc.
@@ -80,5 +85,6 @@ Extraction "model"
   cyc ecyc top_cycle init_ops solve_loop live_in all_writes ev_reads ev_writes
   aniso_indices aniso_accept aniso_in_bounds choose_levels gen_nr gen_ntheta
   q_gen_radii_uniform q_gen_angles q_radii_valid_b q_close_b q_increasing_b q_midpoints_b
+  q_stop_decision q_k_dot q_k_l1 q_k_l2sq q_k_inf threads_on_level
   find_race observed_write_ok observed_read_ok mkDims
   gen_residual_give gen_residual_take gen_smoother_give gen_smoother_take gen_ext_smoother_give gen_ext_smoother_take.
